@@ -273,7 +273,7 @@ theorem app_visible_of_vector (c : Cfg) (app : Misc.Bytes) (h : c.WF) (hq : c.Fr
     (hodd : leDec (slice app 4 4) % 2 = 1)
     (hlo : (c.entry : Int) - HabConsts.resetVectorWindow ≤ leDec (slice app 4 4))
     (hhi : leDec (slice app 4 4) < c.entry + c.imgLen) : AppVisible c app := by
-  refine ⟨h8, ?_, fun o ho hlt => front_quiet_lemma c h hq o ho hlt⟩
+  refine ⟨by rw [appOff_eq]; exact h.appOffKnown, h8, ?_, fun o ho hlt => front_quiet_lemma c h hq o ho hlt⟩
   have hne : leDec (slice app 4 4) ≠ 0 := by omega
   simp [vectorOk, hne, hlo, hhi, hodd]
 
